@@ -9,6 +9,7 @@ import FlVerif.Drv.Defuzz
 import FlVerif.Drv.Lang
 import FlVerif.Drv.EngineIO
 import FlVerif.Drv.TieModels
+import FlVerif.Drv.Wave5X
 
 /-! Registry of driver command groups: one handler per group, tried in order (`none` = not mine / malformed). -/
 
@@ -26,5 +27,6 @@ def handlers : List (List SExp → Option SExp) :=
   , lang
   , engineIO
   , tieModels
+  , wave5x
   ]
 end Drv
